@@ -315,18 +315,26 @@ static mut STORED: [u8; 4] = [0; 4];
 static mut N_STORED: usize = 0;
 fn stub_store(cell: &core::sync::atomic::AtomicU8, val: u8, order: core::sync::atomic::Ordering) {
     unsafe { if N_STORED < 4 { STORED[N_STORED] = val; } N_STORED += 1; }
-    let _ = cell.swap(val, order);
+    let _ = cell.fetch_and(0, order);
+    let _ = cell.fetch_or(val, order);
+}
+fn stub_swap(cell: &core::sync::atomic::AtomicU8, val: u8, order: core::sync::atomic::Ordering) -> u8 {
+    unsafe { if N_STORED < 4 { STORED[N_STORED] = val; } N_STORED += 1; }
+    let old = cell.fetch_and(0, order);
+    let _ = cell.fetch_or(val, order);
+    old
 }
 #[cfg(httparse_simd)]
 #[kani::proof]
 #[kani::stub(crate::simd::runtime::detect_runtime_feature, stub_detect)]
 #[kani::stub(core::sync::atomic::Atomic::<u8>::store, stub_store)]
+#[kani::stub(core::sync::atomic::Atomic::<u8>::swap, stub_swap)]
 fn leaf_runtime_feature_cache() {
     // sequential contract: from a cache holding 0 or a detected id, the call returns the cached value, or detects d, returns d and
     // stores d -- and nothing else is ever stored, not even temporarily
     use core::sync::atomic::Ordering;
     let cached: u8 = kani::any_where(|c: &u8| *c <= 3);
-    let _ = crate::simd::kani_access::runtime_feature_cell().swap(cached, Ordering::Relaxed);
+    crate::simd::kani_access::runtime_feature_cell().store(cached, Ordering::Relaxed);
     unsafe { N_STORED = 0; DETECTED = 0; }
     let r = crate::simd::kani_access::get_runtime_feature();
     let after = crate::simd::kani_access::runtime_feature_cell().load(Ordering::Relaxed);
